@@ -529,6 +529,7 @@ func checkC01(c *Check, p *Program) {
 	// ---- (e) receivers
 	if udp != nil && tcp != nil {
 		checkHeaderValidation(c, p, "C01.e")
+		checkLogSubjects(c, p, "C01.a")
 		checkReceiverLoop(c, p, "C01.e", udp)
 		checkReceiverLoop(c, p, "C01.e", tcp)
 		checkReceiverProgress(c, p, udp, tcp)
@@ -1171,4 +1172,48 @@ func checkHeaderValidation(c *Check, p *Program, rule string) {
 		}
 		c.Decide(okS && other < 0, rule, "knxnet.UnpackHeader accepts exactly "+what[i]+" "+fmt.Sprint(want[i]), p.Pos(uh.Pos()), "success is reachable for that value only", fmt.Sprintf("the header decoder's verdict for %s %d is wrong (or the octet is not examined at all): frames of another protocol revision or with a foreign header are decoded as if they were well-formed", what[i], other))
 	}
+}
+
+// checkLogSubjects: util.Log derives a label from reflect.TypeOf(subject) and
+// calls String() on it; for a nil interface TypeOf is nil and that call
+// panics as soon as a Logger is installed.  In the decode set and the socket
+// receivers - where logging happens on the malformed-frame paths - the
+// subject must be a boxed concrete value (a connection, a receiver), never an
+// interface-typed variable that may still be nil.
+func checkLogSubjects(c *Check, p *Program, rule string) {
+	logFn := p.Func("knx/util", "Log")
+	if logFn == nil {
+		c.Fail(rule, "util.Log", "", "not found")
+		return
+	}
+	n := 0
+	for _, fn := range p.AllFuncs {
+		if fn.Pkg == nil || !p.InModule(fn) {
+			continue
+		}
+		pk := fnPkg(fn)
+		if pk == nil || !(strings.HasSuffix(pk.Pkg.Path(), "/knx/knxnet") || strings.HasSuffix(pk.Pkg.Path(), "/knx/cemi") || strings.HasSuffix(pk.Pkg.Path(), "/knx/util")) {
+			continue
+		}
+		instrsOf(fn, func(in ssa.Instruction) {
+			if !staticCallTo(in, logFn) {
+				return
+			}
+			n++
+			arg := in.(ssa.CallInstruction).Common().Args[0]
+			okS := false
+			why := "the subject is " + describe(arg)
+			if mi, isMI := arg.(*ssa.MakeInterface); isMI {
+				if _, isIface := mi.X.Type().Underlying().(*types.Interface); !isIface {
+					okS = true
+				}
+			} else if anyFact(factsAt(in.Block()), func(f Cmp) bool {
+				return f.Op == token.NEQ && ((f.X == arg && isNilConst(f.Y)) || (f.Y == arg && isNilConst(f.X)))
+			}) {
+				okS = true
+			}
+			c.Decide(okS, rule, FuncName(fn)+" log subject is a concrete value", p.InstrPos(in), "boxed non-interface value: reflect.TypeOf is never nil", "an interface value that may be nil is handed to util.Log as its subject ("+why+"): with a Logger installed reflect.TypeOf(nil).String() panics in the receiver goroutine")
+		})
+	}
+	c.Floor(rule, "util.Log calls in the decoding packages", n, 5)
 }
